@@ -10,6 +10,8 @@ pub enum WalFault {
     AppendError,
     /// write `permille`/1000 of the bytes (at least 1, fewer than all), then fail
     AppendPartial(u16),
+    /// like AppendPartial, but reported as a plain I/O error (what `write_all` on a real file does)
+    AppendTornIo(u16),
     SyncError,
     DiskFull,
     CreateError,
@@ -19,6 +21,7 @@ impl WalFault {
         match self {
             WalFault::AppendError => "wal_append_error",
             WalFault::AppendPartial(_) => "wal_append_partial",
+            WalFault::AppendTornIo(_) => "wal_append_torn_io",
             WalFault::SyncError => "wal_fsync_error",
             WalFault::DiskFull => "wal_disk_full",
             WalFault::CreateError => "wal_create_error",
@@ -125,6 +128,12 @@ impl WalFileWriter for SimWalWriter {
                 let k = ((data.len() as u64 * pm as u64) / 1000).clamp(1, data.len() as u64 - 1) as usize;
                 if let Some(f) = d.files.get_mut(&self.name) { f.data.extend_from_slice(&data[..k]); self.size = f.data.len() as u64; }
                 Err(WalError::PartialWrite { expected: data.len(), actual: k })
+            }
+            Some(WalFault::AppendTornIo(pm)) if data.len() >= 2 => {
+                applied = fault;
+                let k = ((data.len() as u64 * pm as u64) / 1000).clamp(1, data.len() as u64 - 1) as usize;
+                if let Some(f) = d.files.get_mut(&self.name) { f.data.extend_from_slice(&data[..k]); self.size = f.data.len() as u64; }
+                Err(WalError::Io(std::io::Error::new(std::io::ErrorKind::Other, "injected I/O error after a short write")))
             }
             _ => {
                 match d.files.get_mut(&self.name) {
